@@ -3,10 +3,14 @@
    sc = the sidecars of a file group (any list), f = an events file; the hypotheses
    [data_file], [all_fs_ok], [unique_paths] are file-system facts (f is not a sidecar,
    a path is a file or a directory, paths are unique); [at_most_one_applicable] is the
-   property's own "at most one such file per directory". *)
+   property's own "at most one such file per directory".
+   group_init true  = BidsFileGroup.__init__ as it is now (after the fix: commit for C16-F1);
+   group_init false = the constructor before that commit (part B, record of the repaired defect). *)
 From Coq Require Import List NArith Sorting.Sorted.
 From HV Require Import Base.Res Base.Str Model.Bids Proofs.BidsProofs.
 Import ListNotations.
+
+(* ===================================================================== A. the code as it is *)
 
 (* The chain the code computes for an events file consists exactly of the applicable
    sidecars (same suffix, directory on the root path, entities contained with equal
@@ -26,49 +30,37 @@ Theorem C16_chain_unique : forall sc f l,
 Proof. exact chain_unique. Qed.
 Print Assumptions C16_chain_unique.
 
-(* What the constructor attaches to every data file of every tree: the contents of the
-   DEEPEST sidecar of its chain, merged along that sidecar's own chain. *)
-Theorem C16_merged_code : forall excl sfx t g f m,
-  group_init excl sfx t = Ok g -> unique_paths (g_sidecars g) -> In (f, m) (g_data g) ->
-  m = code_merged (g_sidecars g) f.
-Proof. exact group_data_merged. Qed.
-Print Assumptions C16_merged_code.
-
-(* FULL STATEMENT (merged_is_fold), false of the current code:
-     forall excl sfx t g f m, group_init excl sfx t = Ok g -> In (f, m) (g_data g) ->
-       unique_paths (g_sidecars g) -> all_fs_ok (g_sidecars g) -> data_file (g_sidecars g) f ->
-       at_most_one_applicable (g_sidecars g) f ->
-       m = spec_merged (g_sidecars g) f.
-   Refuted: root task-rest_events.json, sub-01/sub-01_events.json,
-   sub-01/eeg/sub-01_task-rest_events.tsv -- column r of the root sidecar is lost. *)
-Theorem C16_merged_is_fold_refuted :
-  exists t g f m,
-    group_init excl_default sfx_events t = Ok g /\ In (f, m) (g_data g) /\
-    unique_paths (g_sidecars g) /\ all_fs_ok (g_sidecars g) /\ data_file (g_sidecars g) f /\
-    at_most_one_applicable (g_sidecars g) f /\
-    m <> spec_merged (g_sidecars g) f /\
-    (exists d d', m = Some d /\ spec_merged (g_sidecars g) f = Some d' /\
-                  jget 1 d = None /\ jget 1 d' = Some 1).
-Proof. exact merged_refuted. Qed.
-Print Assumptions C16_merged_is_fold_refuted.
-
-(* The statement holds with one extra hypothesis: every sidecar of the chain other than the
-   deepest has its entities among the deepest one's.  Missing for the full statement: the
-   constructor would have to merge the file's own chain (see the finding C16-F1). *)
-Theorem C16_merged_partial : forall excl sfx t g f m,
-  group_init excl sfx t = Ok g -> In (f, m) (g_data g) ->
-  unique_paths (g_sidecars g) -> all_fs_ok (g_sidecars g) -> data_file (g_sidecars g) f ->
-  at_most_one_applicable (g_sidecars g) f ->
-  ents_below_last (g_sidecars g) f ->
+(* merged_is_fold, FULL STATEMENT, every tree: the sidecar attached to a data file is the
+   top-down fold of the per-key update along the file's own chain ... *)
+Theorem C16_merged_is_fold : forall excl sfx t g f m,
+  group_init true excl sfx t = Ok g -> In (f, m) (g_data g) ->
   m = spec_merged (g_sidecars g) f.
-Proof. exact merged_partial. Qed.
-Print Assumptions C16_merged_partial.
+Proof. exact merged_is_fold. Qed.
+Print Assumptions C16_merged_is_fold.
 
-(* entity sets increasing along the chain (the BIDS layout) give that hypothesis *)
-Theorem C16_increasing_suffices : forall sc f,
-  StronglySorted ents_le (chain sc f) -> ents_below_last sc f.
-Proof. exact increasing_ents_below_last. Qed.
-Print Assumptions C16_increasing_suffices.
+(* ... that is, under the at-most-one-per-directory hypothesis, the merge of the applicable
+   sidecars in order of depth (None when there is none). *)
+Theorem C16_merged_is_fold_applicable : forall excl sfx t g f m l,
+  group_init true excl sfx t = Ok g -> In (f, m) (g_data g) ->
+  data_file (g_sidecars g) f -> at_most_one_applicable (g_sidecars g) f ->
+  StronglySorted ltd l -> (forall s, In s l <-> In s (g_sidecars g) /\ applicableb s f = true) ->
+  m = if is_empty l then None else Some (merge_dicts (map raw_of l)).
+Proof. exact merged_is_fold_applicable. Qed.
+Print Assumptions C16_merged_is_fold_applicable.
+
+(* The merged contents of a sidecar file itself run along the sidecars applicable to it
+   (itself included), in strictly increasing depth; its own chain is never empty. *)
+Theorem C16_sidecar_chain_is_applicable : forall sc s,
+  In s sc -> all_fs_ok sc -> at_most_one sc s ->
+  (forall s', In s' (chain sc s) <->
+     In s' sc /\ (same_file s s' = true \/ applicableb s' s = true)) /\
+  StronglySorted ltd (chain sc s).
+Proof. exact sidecar_chain_is_applicable. Qed.
+Print Assumptions C16_sidecar_chain_is_applicable.
+
+Theorem C16_own_chain_is_chain : forall sc s, In s sc -> own_chain sc s = chain sc s.
+Proof. exact own_chain_is_chain. Qed.
+Print Assumptions C16_own_chain_is_chain.
 
 (* Override law of the merge: per column key, the deepest file defining the key wins;
    a key defined nowhere is absent. *)
@@ -91,30 +83,31 @@ Theorem C16_walk_prune : forall excl t,
 Proof. exact walk_prune. Qed.
 Print Assumptions C16_walk_prune.
 
-Theorem C16_excluded_take_no_part : forall excl sfx t1 t2,
+Theorem C16_excluded_take_no_part : forall fixed excl sfx t1 t2,
   filter (not_excluded excl) (walk [] t1) = filter (not_excluded excl) (walk [] t2) ->
-  group_init excl sfx t1 = group_init excl sfx t2.
+  group_init fixed excl sfx t1 = group_init fixed excl sfx t2.
 Proof. exact excluded_no_part. Qed.
 Print Assumptions C16_excluded_take_no_part.
 
 (* ... and no sidecar or data file of a constructed group lies below an excluded name. *)
-Theorem C16_group_files_not_excluded : forall excl sfx t g,
-  group_init excl sfx t = Ok g ->
+Theorem C16_group_files_not_excluded : forall fixed excl sfx t g,
+  group_init fixed excl sfx t = Ok g ->
   (forall s, In s (g_sidecars g) -> existsb (fun n => in_names n excl) (b_dir s) = false) /\
   (forall f m, In (f, m) (g_data g) -> existsb (fun n => in_names n excl) (b_dir f) = false).
 Proof. exact group_files_not_excluded. Qed.
 Print Assumptions C16_group_files_not_excluded.
 
-(* Dataset validation is exactly the concatenation of the per-sidecar validations of the
-   merged sidecars and the per-file validations with the attached merged sidecar (for any
-   validators vs, vf), and the command line exits non-zero iff that list is non-empty. *)
-Theorem C16_validate_exact : forall (issue : Type) vs vf excl sfx t g,
-  group_init excl sfx t = Ok g -> unique_paths (g_sidecars g) ->
+(* dataset_issues: dataset validation is exactly the concatenation of the validations of
+   each merged sidecar and of each events file with the fold along ITS OWN chain (for any
+   validators vs, vf; no side condition), and the command line exits non-zero iff that
+   list is non-empty. *)
+Theorem C16_dataset_issues : forall (issue : Type) vs vf excl sfx t g,
+  group_init true excl sfx t = Ok g ->
   dataset_validate issue vs vf g =
     flat_map (fun s => vs (b_name s) (merge_dicts (map raw_of (own_chain (g_sidecars g) s)))) (g_sidecars g)
-    ++ flat_map (fun fm => vf (fst fm) (code_merged (g_sidecars g) (fst fm))) (g_data g).
-Proof. exact validate_exact. Qed.
-Print Assumptions C16_validate_exact.
+    ++ flat_map (fun fm => vf (fst fm) (spec_merged (g_sidecars g) (fst fm))) (g_data g).
+Proof. exact dataset_issues. Qed.
+Print Assumptions C16_dataset_issues.
 
 Theorem C16_cli_exit_iff : forall (issue : Type) vs vf g,
   cli_exit issue vs vf g <> 0 <-> dataset_validate issue vs vf g <> [].
@@ -122,10 +115,10 @@ Proof. exact cli_exit_iff. Qed.
 Print Assumptions C16_cli_exit_iff.
 
 (* Non-vacuity: a BIDS-conformant tree (with an excluded code/ directory) meets every
-   hypothesis of C16_merged_partial; its chain has two sidecars and the merge shows both
-   inheritance (key 1 from the root) and override (key 0 from the deeper file). *)
+   hypothesis; its chain has two sidecars and the merge shows both inheritance (key 1 from
+   the root) and override (key 0 from the deeper file). *)
 Example C16_nonvacuous :
-  group_init excl_default sfx_events ok_tree = Ok ok_group /\
+  group_init true excl_default sfx_events ok_tree = Ok ok_group /\
   In (ok_file, Some [(0, 2); (1, 1); (2, 1)]) (g_data ok_group) /\
   unique_paths (g_sidecars ok_group) /\ all_fs_ok (g_sidecars ok_group) /\
   data_file (g_sidecars ok_group) ok_file /\ at_most_one_applicable (g_sidecars ok_group) ok_file /\
@@ -133,3 +126,62 @@ Example C16_nonvacuous :
   List.length (chain (g_sidecars ok_group) ok_file) = 2 /\
   spec_merged (g_sidecars ok_group) ok_file = Some [(0, 2); (1, 1); (2, 1)].
 Proof. exact ok_example. Qed.
+
+(* The tree that refuted the statement before the fix (part B), on the repaired
+   constructor: the events file inherits column r (key 1) of the root sidecar. *)
+Example C16_old_witness_now_inherits :
+  group_init true excl_default sfx_events wit_tree = Ok wit_group_fixed /\
+  g_data wit_group_fixed = [(wit_file, Some [(0, 2); (1, 1); (2, 1)])] /\
+  List.length (chain (g_sidecars wit_group_fixed) wit_file) = 2 /\
+  data_file (g_sidecars wit_group_fixed) wit_file /\
+  at_most_one_applicable (g_sidecars wit_group_fixed) wit_file.
+Proof. exact wit_fixed_example. Qed.
+
+(* ===================================================================== B. record of the repaired defect C16-F1
+   (group_init false = the constructor before the fix: commit) *)
+
+(* What the old constructor attached to every data file: the contents of the DEEPEST sidecar
+   of its chain, merged along that sidecar's own chain. *)
+Theorem C16_before_fix_merged_code : forall excl sfx t g f m,
+  group_init false excl sfx t = Ok g -> unique_paths (g_sidecars g) -> In (f, m) (g_data g) ->
+  m = code_merged (g_sidecars g) f.
+Proof. exact group_data_merged. Qed.
+Print Assumptions C16_before_fix_merged_code.
+
+(* merged_is_fold was FALSE of the old constructor: root task-rest_events.json,
+   sub-01/sub-01_events.json, sub-01/eeg/sub-01_task-rest_events.tsv -- column r of the
+   root sidecar was lost. *)
+Theorem C16_before_fix_merged_is_fold_refuted :
+  exists t g f m,
+    group_init false excl_default sfx_events t = Ok g /\ In (f, m) (g_data g) /\
+    unique_paths (g_sidecars g) /\ all_fs_ok (g_sidecars g) /\ data_file (g_sidecars g) f /\
+    at_most_one_applicable (g_sidecars g) f /\
+    m <> spec_merged (g_sidecars g) f /\
+    (exists d d', m = Some d /\ spec_merged (g_sidecars g) f = Some d' /\
+                  jget 1 d = None /\ jget 1 d' = Some 1).
+Proof. exact merged_refuted. Qed.
+Print Assumptions C16_before_fix_merged_is_fold_refuted.
+
+(* It held only when every sidecar of the chain other than the deepest had its entities
+   among the deepest one's (e.g. entity sets increasing along the chain). *)
+Theorem C16_before_fix_merged_partial : forall excl sfx t g f m,
+  group_init false excl sfx t = Ok g -> In (f, m) (g_data g) ->
+  unique_paths (g_sidecars g) -> all_fs_ok (g_sidecars g) -> data_file (g_sidecars g) f ->
+  at_most_one_applicable (g_sidecars g) f ->
+  ents_below_last (g_sidecars g) f ->
+  m = spec_merged (g_sidecars g) f.
+Proof. exact merged_partial. Qed.
+Print Assumptions C16_before_fix_merged_partial.
+
+Theorem C16_before_fix_increasing_suffices : forall sc f,
+  StronglySorted ents_le (chain sc f) -> ents_below_last sc f.
+Proof. exact increasing_ents_below_last. Qed.
+Print Assumptions C16_before_fix_increasing_suffices.
+
+Theorem C16_before_fix_validate_exact : forall (issue : Type) vs vf excl sfx t g,
+  group_init false excl sfx t = Ok g -> unique_paths (g_sidecars g) ->
+  dataset_validate issue vs vf g =
+    flat_map (fun s => vs (b_name s) (merge_dicts (map raw_of (own_chain (g_sidecars g) s)))) (g_sidecars g)
+    ++ flat_map (fun fm => vf (fst fm) (code_merged (g_sidecars g) (fst fm))) (g_data g).
+Proof. exact validate_exact_before_fix. Qed.
+Print Assumptions C16_before_fix_validate_exact.
